@@ -941,6 +941,33 @@ Error query_rw_info(Arch arch, const BaseInst& inst, const Operand_* operands, s
       }
     }
 
+    // Reg/Mem information is stored per instruction and operand index, so operand combinations that have no memory
+    // form have to be filtered out:
+    //
+    //   - An immediate value that is not a sign-extended 32-bit integer can only be combined with a 64-bit register
+    //     (`and r64, u32` is encoded as `and r32, u32`), 64-bit memory destination always sign-extends imm32.
+    //   - V[PERMILPD|PERMILPS|PERMPD|PERMQ] and VPS[LL|RA|RL][W|D|Q] only provide [reg, reg, reg/mem] and
+    //     [reg, reg/mem, imm] forms, so the second operand cannot be memory if the third one is not an immediate.
+    if (op_count == 2 && operands[1].is_imm()) {
+      if (operands[0].is_gp64() && !Support::is_int_n<32>(operands[1].as<Imm>().value())) {
+        rm_ops_mask = 0;
+      }
+    }
+    else if (op_count == 3 && operands[2].is_reg()) {
+      switch (inst_info._encoding) {
+        case InstDB::kEncodingVexRvmRmi:
+        case InstDB::kEncodingVexRvmRmi_Lx:
+        case InstDB::kEncodingVexRvmVmi:
+        case InstDB::kEncodingVexRvmVmi_Lx:
+        case InstDB::kEncodingVexRvmVmi_Lx_MEvex:
+          rm_ops_mask &= ~uint32_t(0x2);
+          break;
+
+        default:
+          break;
+      }
+    }
+
     // Only keep kMovOp if the instruction is actually register to register move of the same kind.
     if (out->has_inst_flag(InstRWFlags::kMovOp)) {
       if (!(op_count >= 2 && op_type_mask == Support::bit_mask<uint32_t>(OperandType::kReg) && has_same_reg_type(reinterpret_cast<const Reg*>(operands), op_count))) {
@@ -1161,7 +1188,10 @@ Error query_rw_info(Arch arch, const BaseInst& inst, const Operand_* operands, s
 
         if (operands[0].is_gp() && operands[1].is_imm()) {
           const Reg& o0 = operands[0].as<Reg>();
-          out->_operands[0].reset(W | RegM, o0.size());
+
+          // There is no `mov m64, imm64` - 64-bit memory destination only accepts a sign-extended 32-bit immediate.
+          bool is_imm64 = o0.size() == 8 && !Support::is_int_n<32>(operands[1].as<Imm>().value());
+          out->_operands[0].reset(is_imm64 ? W : W | RegM, o0.size());
           out->_operands[1].reset();
 
           rw_zero_extend_gp(out->_operands[0], operands[0].as<Gp>(), native_gp_size);
